@@ -308,6 +308,7 @@ StartOK(m, st) == AllNum(st) /\ Len(st) = NR(m) /\ FxInBounds(m, Vals(st)) /\ Fx
 LooplessSolClauses(ev) ==
   LET s == ev.step o == ev.obs m == cur IN
   IF C17Scope(m) # "in" THEN {}
+  ELSE IF o.raises = "crash" THEN {"loopless_solution_raises_in_scope"}      \* the call killed the process
   ELSE IF s.start # "none" /\ ~StartOK(m, o.start) THEN {}
   ELSE IF o.raises # "none" THEN {"loopless_solution_raises_in_scope"}
   ELSE IF ~(AllNum(o.sol.fluxes) /\ IsNum(o.sol.obj) /\ Len(o.sol.fluxes) = NR(m)) THEN {"loopless_solution_shape"}
@@ -409,7 +410,7 @@ Undecided(ev, A) ==
     [] ev.step.op = "access" -> last.valid /\ ~last.info.dec
     [] ev.step.op = "fva" -> A.scope \notin {"in", "no_optimum"} \/ (A.scope = "in" /\ A.e.mode # "exact")
     [] ev.step.op \in {"blocked", "fastcc"} -> C19Scope(cur) # "in"
-    [] ev.step.op = "loopless_solution" -> C17Scope(cur) # "in" \/ (ev.step.start # "none" /\ ~StartOK(cur, ev.obs.start))
+    [] ev.step.op = "loopless_solution" -> C17Scope(cur) # "in" \/ (ev.step.start # "none" /\ ev.obs.raises # "crash" /\ ~StartOK(cur, ev.obs.start))
                                             \/ (ev.obs.raises = "none" /\ AllNum(ev.obs.sol.fluxes) /\ ~IsIntegral(Vals(ev.obs.sol.fluxes)))
     [] ev.step.op = "add_loopless" -> C17Scope(cur) # "in"
     [] OTHER -> FALSE
